@@ -1,5 +1,6 @@
 use core::fmt::Debug;
 use std::collections::{BTreeSet, HashMap};
+use std::ops::Bound;
 
 use crate::{
     data::{DataChunk, DataIterator},
@@ -36,7 +37,11 @@ impl ProgramLines {
     }
 
     pub fn after(&self, line: u64) -> Option<u64> {
-        self.sorted_line_numbers.range(line + 1..).next().copied()
+        // Note that `line + 1..` would overflow when `line` is `u64::MAX`.
+        self.sorted_line_numbers
+            .range((Bound::Excluded(line), Bound::Unbounded))
+            .next()
+            .copied()
     }
 
     pub fn has(&self, line_number: u64) -> bool {
